@@ -59,7 +59,7 @@ def run(ctx):
         if ctx.require(crate.fn("completers::escaped_word_start") is not None, "R20-5", "R20-5|anchor",
                        "completers::escaped_word_start not found"):
             n = ispace.rule(ctx, crate, "R20-5", ["completers::escaped_word_start"])
-            ctx.floor("R20-5", crate, "index-space obligations", n, 2)
+            ctx.floor("R20-5", crate, "index-space obligations", n, 1)
             quote_state_rule(ctx, crate)
         cd_prefix_rule(ctx, crate)
         from .. import editlist
@@ -247,7 +247,11 @@ def quote_rule(ctx, crate):
             for a, v in facts:
                 if a[0] == "bin" and a[1] == "Eq" and v is True and const_char(a[3]):
                     extra.add(const_char(a[3]))
+    from .c16 import _wrapsep
+    W = _wrapsep(crate)
     for q, table in (("\"", DQ_SPECIAL), ("'", SQ_SPECIAL)):
+        if W.ok:
+            extra = W.tagged_extra(q)
         for ch, why in sorted(table.items()):
             ok = (ch == q and bool(tagchar)) or ch in extra
             ctx.ob("R20-2", w.path, "inside %s: %r is escaped (%s)" % (q, ch, why), ok,
@@ -313,6 +317,82 @@ def candidate_rule(ctx, crate):
            ok1 and ok2, key="R20-3|%s|route" % b.path, crate=crate.kind)
 
 
+def _option_quote_state(ctx, crate, b, loop, cexpr):
+    """the same obligations when the open quote is remembered as an Option<char> (None = no quote open) instead of a bool
+    plus a char: opened = assigned Some(cursor character) only under `state is None`; closed = assigned None only under
+    `payload == cursor character`; a space separates words only under `state is None`.  Returns False when the function
+    keeps no such local (the bool form is analysed by the caller)."""
+    states = [l for l, loc in enumerate(b.locals) if loc["ty"] == "std::option::Option<char>" and l in b.names and
+              any(bi in loop for bi, si in b.defs.get(l, []))]
+    if not states:
+        return False
+
+    def same_char(e):
+        e = b.expand_vars(strip_sites(e))
+        return e == cexpr or b.expand_vars(cexpr) == e
+
+    for l in states:
+        name = b.names.get(l)
+        opened, closed, other = [], [], []
+        for bi, si in b.defs.get(l, []):
+            if bi not in loop or si == "T":
+                (other if bi in loop else []).append(bi)
+                continue
+            e = strip_sites(b.def_expr(bi, si))
+            if e[0] == "agg" and e[1].endswith("Option::Some") and e[2] and same_char(e[2][0]):
+                opened.append(bi)
+            elif e[0] == "agg" and e[1].endswith("Option::None"):
+                closed.append(bi)
+            else:
+                other.append(bi)
+
+        def state_is(facts, want):
+            for a, v in facts:
+                a2 = strip_sites(a)
+                if a2[0] == "discr" and mir.root_local_expr(a2[1]) == l and v == want:
+                    return True
+                if a2[0] == "call" and last_seg(a2[1]) in ("is_none", "is_some") and a2[2] and \
+                        mir.root_local_expr(b.expand_vars(a2[2][0])) == l and isinstance(v, bool):
+                    if (last_seg(a2[1]) == "is_none") == (v == (want == "None")):
+                        return True
+            return False
+        ok_open = bool(opened) and all(state_is(dom_facts(b, bi, within=loop), "None") for bi in opened)
+        ok_close = bool(closed)
+        for bi in closed:
+            good = False
+            for a, v in dom_facts(b, bi, within=loop):
+                a2 = strip_sites(a)
+                if a2[0] == "bin" and a2[1] == "Eq" and v is True:
+                    for x, y in ((a2[2], a2[3]), (a2[3], a2[2])):
+                        xe = b.expand_vars(x)
+                        if same_char(y) and any(s_[0] == "downcast" and s_[1] == "Some" and mir.root_local_expr(s_[2]) == l
+                                                for s_ in mir.subexprs(xe)):
+                            good = True
+            ok_close = ok_close and good
+        # a space counts as a separator only while no quote is open
+        gate = False
+        for bi, si, st in b.stmts():
+            if bi in loop and st["k"] == "assign" and not st["place"]["p"] and b.locals[st["place"]["l"]]["ty"] == "bool" \
+                    and mir.const_bool(b.rvalue_expr(st["rv"])) is True:
+                facts = dom_facts(b, bi, within=loop)
+                if any(strip_sites(a)[0] == "bin" and strip_sites(a)[1] == "Eq" and v is True and same_char(strip_sites(a)[2])
+                       and const_char(strip_sites(a)[3]) == " " for a, v in facts):
+                    gate = state_is(facts, "None")
+        ctx.ob("R20-6", b.path, "quote state `%s`: a space separates words only while no quote is open" % name, gate,
+               key="R20-6|%s|quote-gates-space|%s" % (b.path, name), crate=crate.kind)
+        ctx.ob("R20-6", b.path, "quote state `%s`: a quote character opens a quoted region only when none is open" % name, ok_open,
+               key="R20-6|%s|quote-open-guard|%s" % (b.path, name), crate=crate.kind, where=b.loc((opened or [0])[0]),
+               detail=None if ok_open else "inside an open quote the other quote character replaces the remembered one: a "
+               "second such character then closes the region and the next space splits the word being completed")
+        ok = ok_close and bool(opened) and not other
+        ctx.ob("R20-6", b.path, "quote state `%s`: opened together with remembering the character, closed only by that "
+                                "character" % name, ok, key="R20-6|%s|quote-state|%s" % (b.path, name), crate=crate.kind,
+               where=b.loc((other or closed or opened or [0])[0]),
+               detail=None if ok else "inside an open quote the other quote character (an apostrophe in a double-quoted name) "
+               "ends the quoted region for the word-start search: the next space splits the word being completed")
+    return True
+
+
 def quote_state_rule(ctx, crate):
     b = crate.fn("completers::escaped_word_start")
     if b is None:
@@ -320,7 +400,7 @@ def quote_state_rule(ctx, crate):
     # the loop and the cursor character
     nb = None
     for bb, t, c in b.calls():
-        if last_seg(c) == "next" and "Enumerate" in c:
+        if last_seg(c) == "next" and ("Enumerate" in c or "CharIndices" in c):
             nb = bb
     if not ctx.require(nb is not None, "R20-6", "R20-6|%s|loop" % b.path, "character loop not found", b.path):
         return
@@ -329,6 +409,8 @@ def quote_state_rule(ctx, crate):
         if nb in blocks and (loop is None or len(blocks) > len(loop)):
             loop = blocks
     cexpr = mir.fld(1, mir.fld(0, ("downcast", "Some", strip_sites(b.call_expr(nb))), "0"))
+    if _option_quote_state(ctx, crate, b, loop, cexpr):
+        return
     # the quote-state flag: a bool local that must be false for a space to count as a word separator, and that is
     # not the backslash flag (the one set under `c == '\\'`)
     gate = set()
